@@ -909,6 +909,23 @@ func cliRepair(c *fw.Ctx) {
 		}
 		if fmt.Sprint(sortedCounts(got)) != fmt.Sprint(sortedCounts(want)) {
 			c.Violate("cli:repair-pipeline:table-not-restored", enc, fmt.Sprint(sortedCounts(want)), fmt.Sprint(sortedCounts(got)))
+			continue
+		}
+		// the order of the table: the three commands are gts.Slice, gts.Concat
+		// and gts.Repair and nothing else, so the pipeline lists the features as
+		// the library composition does on the record gts read (whatever that
+		// order is for a table that was not sorted).
+		if ins, err := parseOut([]byte(input)); err == nil && len(ins) == 1 {
+			var lib []gts.Feature
+			p, _, _, _ := fw.Guard(func() {
+				cat := gts.Concat(gts.Slice(ins[0], 0, cut), gts.Slice(ins[0], cut, gts.Len(ins[0])))
+				lib = gts.Repair(cat.Features())
+			})
+			if !p && len(lib) == len(outs[0].Features()) {
+				if w, g := fmt.Sprint(labelsOf(lib)), fmt.Sprint(labelsOf(outs[0].Features())); w != g {
+					c.Violate("cli:repair-pipeline:table-order-differs-from-slice-concat-repair", enc, w, g)
+				}
+			}
 		}
 	}
 }
